@@ -259,6 +259,29 @@ fn gen_vacuum(seed: u64, tier: Tier) -> Scenario {
     s
 }
 
+fn gen_medium(seed: u64, tier: Tier) -> Scenario {
+    let mut s = gen::gen_history(seed, if tier == Tier::Quick { 9 } else { 16 }, false, true);
+    if tier == Tier::Thorough {
+        s.knobs.insert("thorough".into(), 1);
+    }
+    s
+}
+pub const RULE_MEDIUM: &str = "a seeded history (puts of all payload classes, updates, deletes, commits, vacuum, doctor) produces a committed, closed file; 40 (quick) or 300 (thorough) seeded medium faults per file are then applied at rest, addressed by structure (header fields, WAL, each payload, index region, TOC, footer): single-bit flips, zeroed or garbage-filled ranges and sectors, truncation, a lost earlier write (rebuilt from the syscall log), misdirected copies and splices; each faulted copy is opened read-only and writable, read frame by frame, verified and (C21/C22) given to doctor; a run is non-trivial iff the history acknowledged a mutation and >=1 faulted image was evaluated; distinct = (op-kind buckets, fault kinds, regions hit) classes";
+fn medium(id: &'static str, probes: &'static [&'static str]) -> CheckDef {
+    CheckDef {
+        id,
+        level: "fault_enumeration",
+        quick_s: 40,
+        thorough_s: 900,
+        gen: gen_medium,
+        run: crate::corrupt::run_corrupt,
+        rule: RULE_MEDIUM,
+        assumptions: &["faults are sampled by seed, densely per structure; the exhaustive single-byte enumeration the property text mentions is not performed", "the committed content is what a read-only open of the pristine file returns"],
+        want_probes: probes,
+    }
+}
+
+pub const RULE_LOCK: &str = "C01-style histories of a first writer (create/open, puts of all payload classes, updates, deletes, commits, automatic checkpoints, WAL growth, vacuum, downgrade_to_shared, clean and dirty restarts) with a second actor inserted after random steps: a writable Memvid::open of the same path through an independent open file description, Memvid::doctor on the path, or a raw flock(LOCK_EX|LOCK_NB) probe on a fresh descriptor; every attempt made while the first writable handle is alive must fail; if one succeeds both writers commit and the reopened file is checked for a lost commit; a run is non-trivial iff >=1 mutation was acknowledged and >=1 attempt was made while a writable handle was alive and >=1 comparison ran on a reopened handle; distinct = (op-kind buckets, probes) classes";
 pub const RULE_RO: &str = "seeded corpora with committed and still-pending (process death) records, followed by one or more read-only sessions (open_read_only, model comparison against the last committed state, searches, timelines, vector queries, verify) under the syscall monitor; the file is hashed when the read-only handle opens and when it is dropped; a run is non-trivial iff >=1 mutation was acknowledged and >=1 comparison ran on a reopened handle; distinct = (op-kind buckets, probes) classes";
 pub const RULE_SF: &str = "C01-style histories with vacuum and doctor, one third fault-free and two thirds with injected ENOSPC/EIO/EMFILE/short writes/EINTR (at most 1-3 error-class faults per run), a directory listing after every API return, and a planted forbidden sidecar before an open; a run is non-trivial iff >=1 mutation was acknowledged and >=1 comparison ran on a reopened handle; distinct = (op-kind buckets, fault kinds fired, probes) classes";
 pub const RULE_TK: &str = "seeded histories of puts (whole and chunked), tickets (fresh, stale, equal, negative sequence numbers; capacities a few bytes to kilobytes above the current payload end), forged signed tickets on bound and unbound memories, commits, clean and dirty restarts; after every call the payload ends are compared with the granted capacity and rejected calls are monitored for write-class syscalls; non-trivial and distinct as for histories";
@@ -346,7 +369,12 @@ pub fn all() -> Vec<CheckDef> {
         CheckDef { id: "C19", level: "exploration", quick_s: 40, thorough_s: 600, gen: |s, t| gen::gen_single_file(s, if t == Tier::Quick { 20 } else { 40 }), run: run_history, rule: RULE_SF, assumptions: &["injected errors are returned at the libc boundary for calls on the memory's directory only", "reads through mmap cannot be faulted"], want_probes: &["dir_listings", "sidecar_refusals", "op_errors"] },
         CheckDef { id: "C24", level: "exploration", quick_s: 40, thorough_s: 600, gen: |s, _t| gen::gen_tickets(s, true), run: run_history, rule: RULE_TK, assumptions: &["capacity is compared with the end offset of frame payloads as reported by the public Frame fields"], want_probes: &["capacity_checks", "tickets_accepted", "rejected_calls_monitored"] },
         CheckDef { id: "C25", level: "exploration", quick_s: 40, thorough_s: 600, gen: |s, _t| gen::gen_tickets(s, false), run: run_history, rule: RULE_TK, assumptions: &["acceptance of an authentic signed ticket cannot be exercised (no private key); forged signatures, wrong memory ids and unbound memories are"], want_probes: &["tickets_accepted", "stale_tickets_rejected", "forged_tickets_rejected", "rejected_calls_monitored"] },
+        CheckDef { id: "C17", level: "exploration", quick_s: 40, thorough_s: 600, gen: |s, t| gen::gen_two_writers(s, if t == Tier::Quick { 20 } else { 40 }), run: run_history, rule: RULE_LOCK, assumptions: &["a second process is simulated by an independent open file description in the same process: flock conflicts between open file descriptions exactly as between processes; process-local state would not, and memvid-core keeps none on this path", "steps of the two actors interleave at API-call granularity", "the lock's retry loop (200 x 50 ms) runs on the virtual clock"], want_probes: &["second_open_refused", "flock_probes", "refused_after_commit", "refused_before_first_commit"] },
         hist("C42", gen_vacuum, &["vacuum", "deletes", "updates"]),
+        medium("C20", &["medium_images", "medium_open_accepted", "medium_open_rejected", "fault_in_payload", "fault_in_toc", "fault_in_footer", "fault_in_wal", "fault_in_indexes"]),
+        medium("C21", &["medium_images", "medium_doctor_ran"]),
+        medium("C22", &["medium_images", "medium_open_accepted", "medium_open_rejected"]),
+        medium("C31", &["medium_images", "medium_footer_found", "medium_footer_absent"]),
         CheckDef {
             id: "C05",
             level: "exploration",
